@@ -160,6 +160,9 @@ func c12List(tier string) []c12Case {
 	for i := 0; i < nr; i++ {
 		out = append(out, c12Case{Family: "random", N: 125})
 	}
+	for i := 0; i < nm; i++ {
+		out = append(out, c12Case{Family: "half-duplex", N: 125})
+	}
 	return out
 }
 
@@ -210,9 +213,17 @@ func c12NewEnv() *c12Env {
 }
 
 func c12One(tier string, _ *c12Env, seq []*wire.Rpc, syms []int, res *core.Result, desc func() string) bool {
+	return c12OneMode(tier, seq, syms, res, desc, false)
+}
+
+// c12OneMode: halfDuplex = the peer writes its whole batch (sequence + probe) before it reads anything.
+func c12OneMode(tier string, seq []*wire.Rpc, syms []int, res *core.Result, desc func() string, halfDuplex bool) bool {
 	goat.VerifResetTracking()
 	env := c12NewEnv() // a fresh server per sequence: late handlers of an earlier sequence cannot disturb the counts
 	l := wire.NewLink(4, false)
+	if halfDuplex {
+		l = wire.NewLink(0, false)
+	}
 	ctx, cancel := context.WithCancel(context.Background())
 	env.mu.Lock()
 	env.unaryRuns, env.streamRuns, env.probeRuns = 0, 0, 0
@@ -223,7 +234,7 @@ func c12One(tier string, _ *c12Env, seq []*wire.Rpc, syms []int, res *core.Resul
 	resets := map[uint64]int{}
 	var probeReply *wire.Rpc
 	probeCh := make(chan struct{})
-	peer := wire.NewPeer(ctx, l.A, func(p *wire.Peer, in *wire.Rpc) {
+	react := func(p *wire.Peer, in *wire.Rpc) {
 		rmu.Lock()
 		if in.GetReset_() != nil {
 			resets[in.GetId()]++
@@ -233,8 +244,10 @@ func c12One(tier string, _ *c12Env, seq []*wire.Rpc, syms []int, res *core.Resul
 			close(probeCh)
 		}
 		rmu.Unlock()
-	})
-	_ = peer
+	}
+	if !halfDuplex {
+		wire.NewPeer(ctx, l.A, react)
+	}
 	fed := make(chan struct{})
 	go func() {
 		defer close(fed)
@@ -247,6 +260,25 @@ func c12One(tier string, _ *c12Env, seq []*wire.Rpc, syms []int, res *core.Resul
 			Headers: []*goatorepo.KeyValue{{Key: svc.TagKey, Value: "probe"}}}, Body: &goatorepo.Body{Data: c12Body}}
 		l.A.Write(ctx, probe)
 	}()
+	if halfDuplex {
+		// the peer reads only once its whole batch has been taken by the server
+		st, snap := settle(tier, func() bool {
+			select {
+			case <-fed:
+				return true
+			default:
+				return false
+			}
+		})
+		if st == "stuck" {
+			res.ViolateD("server-stops-reading-from-half-duplex-peer", map[string]any{"sequence": desc(), "goat_goroutines": goatParked(snap)}, "a peer that writes %s and a probe before reading anything: the server stops reading (final state with the peer's write pending)", desc())
+			l.Kill()
+			cancel()
+			<-fed
+			return false
+		}
+		wire.NewPeer(ctx, l.A, react)
+	}
 	ok := true
 	st, snap := settle(tier, func() bool {
 		select {
@@ -427,6 +459,40 @@ func c12Run(tier string, seed int64, idx int) *core.Result {
 			}
 			runSyms(syms)
 		}
+	case "half-duplex":
+		// symbols that never open a stream (so that no live handler can block the read loop by design)
+		// and at most 6 unary-type requests (8 workers; their replies wait for the peer to read)
+		var pool, unaryish []int
+		for sym := 0; sym < c12NSym; sym++ {
+			switch c12Shapes[sym%25] {
+			case "open-bidi", "open-client", "reset-unknown-type", "open-id0":
+			case "unary", "unary-no-body", "unary-bad-body", "unary-with-trailer", "unary-tiny-timeout", "unary-bad-timeout", "unary-bad-bin-md":
+				unaryish = append(unaryish, sym)
+			default:
+				pool = append(pool, sym)
+			}
+		}
+		for i := 0; i < c.N; i++ {
+			n := 2 + r.Intn(11)
+			syms := make([]int, 0, n)
+			nu := 0
+			for j := 0; j < n; j++ {
+				if nu < 6 && r.Intn(4) == 0 {
+					syms = append(syms, unaryish[r.Intn(len(unaryish))])
+					nu++
+				} else {
+					syms = append(syms, pool[r.Intn(len(pool))])
+				}
+			}
+			seq := make([]*wire.Rpc, len(syms))
+			for k, sy := range syms {
+				seq[k] = c12Envelope(sy, k)
+			}
+			evals++
+			core.Cursor("half-duplex " + c12Desc(syms))
+			sy := syms
+			c12OneMode(tier, seq, sy, res, func() string { return "half-duplex " + c12Desc(sy) }, true)
+		}
 	case "mutate":
 		// field-level mutations of a valid conversation: a unary call, a bidi stream with two bodies and half-close
 		for i := 0; i < c.N; i++ {
@@ -512,11 +578,11 @@ func init() {
 	core.Register(&core.Prop{
 		ID:    "C12",
 		Level: "exploration",
-		Rule:  "alphabet = 25 envelope shapes x 2 stream ids (50 symbols); ALL sequences of length <= 3 (quick: 127 550) / <= 4 (thorough: 6 377 550) are fed by a scripted peer to a fresh server connection, each followed by a valid probe request that must be answered correctly, a reference-dispatcher check (unary handler invocation count in the allowed range, no handler for wrong destination / malformed requests, one reset per body addressed to a never-opened id), and the end of the connection after which Serve must return; plus seeded field-level mutations of a valid conversation and random sequences of length 5..40 (and 10^5 of length 5 in thorough). distinct_nontrivial = enumerated sequences (all distinct by construction) + distinct other batches.",
+		Rule:  "alphabet = 25 envelope shapes x 2 stream ids (50 symbols); ALL sequences of length <= 3 (quick: 127 550) / <= 4 (thorough: 6 377 550) are fed by a scripted peer to a fresh server connection, each followed by a valid probe request that must be answered correctly, a reference-dispatcher check (unary handler invocation count in the allowed range, no handler for wrong destination / malformed requests, one reset per body addressed to a never-opened id), and the end of the connection after which Serve must return; plus sequences of 2..12 envelopes that open no stream fed by a half-duplex peer (it writes the whole batch and the probe before reading anything), seeded field-level mutations of a valid conversation and random sequences of length 5..40 (and 10^5 of length 5 in thorough). distinct_nontrivial = enumerated sequences (all distinct by construction) + distinct other batches.",
 		Plan:  func(tier string, seed int64) int { return len(c12List(tier)) },
 		Run:   c12Run,
 		Exhaustive: func(string) bool { return true },
-		RequiredStats: func(string) []string { return []string{"sequences_enum", "sequences_mutate", "sequences_random"} },
+		RequiredStats: func(string) []string { return []string{"sequences_enum", "sequences_mutate", "sequences_random", "sequences_half-duplex"} },
 		Assumptions: []string{"exhaustive = every sequence over the 50-symbol alphabet up to the stated length; schedules within a sequence are not enumerated", "stream handlers alternate between returning at once and echoing until end of stream"},
 		Budget:      nil,
 	})
